@@ -108,7 +108,9 @@ Proof.
   destruct (starts_with s _); [apply err_atP; auto|].
   sb (advance_ascii text Hvalid 2). intros s1 H1. cbv beta.
   sb consume_name_safe. intros [target s2] [H2 _]. cbv beta iota zeta.
-  pose proof (skip_spaces_safe text Hvalid s2 ltac:(eauto)) as H3.
+  eapply safeP_bind with (Q := Ext s2).
+  { apply safe_safeP. destruct (starts_with s2 _); [cbn; eauto|]. eapply consume_spaces_safe; eauto. }
+  intros s3 H3. cbv beta.
   sb consume_chars_safe. intros [content s4] [H4 _]. cbv beta iota.
   sb skip_string_safe. intros s5 H5. cbv beta.
   sbev. intros c1 Hc1. cbn in Hc1. cbn. apply PostS_intro; auto. ext.
